@@ -121,6 +121,8 @@ def obligations(tier):
     for N in range(2, maxN + 1):
         for opt, kwargs in [("plain", dict()), ("normalize_factors", dict(normalize_factors=True)), ("fixed_mode_0", dict(fixed_modes=[0])),
                             ("normalize_factors,fixed_mode_0", dict(normalize_factors=True, fixed_modes=[0]))]:
+            if N >= 4 and "normalize" in opt:
+                continue  # (order-4 normalised multiplicative sweeps exceed the per-obligation budget: orders 2-3 only)
             add("_nn_cp:non_negative_parafac", f"N={N},{opt}", cp_setup(N), lambda I, kwargs=kwargs: run_cp(_nn.non_negative_parafac, _nn, I, dict(kwargs, return_errors=True)),
                 cp_post(), dict(order=N, options=opt), "sign invariant preserved by a sweep and returned at every exit", side_nonzero=True)
         hals_modes = [("all", "all", None)] + [(f"{{{m}}}", {m}, [m]) for m in range(N)] + ([("{0,1}", {0, 1}, [0, 1])] if N >= 3 else [])
